@@ -114,6 +114,7 @@ class Aggregate:
         self.steps = 0
         self.ops = 0
         self.reports = 0
+        self.subcases = 0
         self.samples = []
         self.other_tags = {}
 
@@ -134,6 +135,8 @@ class Aggregate:
         self.steps += res["steps"]
         self.ops += res["n_ops"]
         self.reports += res["n_reports"]
+        self.subcases += res.get("subcases", 0)
+        self.nontrivial.update(res.get("subcase_digests", []))
         c = res["counters"]
         nontrivial = (sum(cov["proc_ops"].values()) > 0 and (
             c.get("set_iter_permutable", 0) > 0 or c.get("walk_dirs", 0) > 0
@@ -152,7 +155,7 @@ class Aggregate:
                 "states": sorted(self.states), "transitions": sorted(self.transitions),
                 "set_orders": sorted(self.set_orders), "walk_orders": sorted(self.walk_orders),
                 "nontrivial": sorted(self.nontrivial), "sim_seconds": self.sim_seconds, "steps": self.steps,
-                "ops": self.ops, "reports": self.reports, "samples": self.samples, "other_tags": self.other_tags}
+                "ops": self.ops, "reports": self.reports, "subcases": self.subcases, "samples": self.samples, "other_tags": self.other_tags}
 
     def merge(self, d):
         self.runs += d["runs"]
@@ -166,6 +169,7 @@ class Aggregate:
         self.steps += d["steps"]
         self.ops += d["ops"]
         self.reports += d["reports"]
+        self.subcases += d.get("subcases", 0)
         for s in d["samples"]:
             if len(self.samples) < 4:
                 self.samples.append(s)
@@ -332,6 +336,13 @@ def coordinator(check, tier, runs, budget_s, workers, vseed):
 
 def write_replay(check, v, spec, hs, shrink=True):
     os.makedirs(os.path.join(HERE, "replays"), exist_ok=True)
+    if v.get("narrow") and 0 <= v.get("op_index", -1) < len(spec["ops"]):
+        # a sweep op enumerates many sub-cases: narrow it to the failing one
+        spec = json.loads(json.dumps(spec))
+        op = spec["ops"][v["op_index"]]
+        for k in ("stride", "parts", "part"):
+            op.pop(k, None)
+        op.update(v["narrow"])
     raw = {"property": check, "hashseed": hs, "expect_sig": v["sig"], "violation": {k: v[k] for k in v if k != "tb"},
            "spec": spec, "minimised": False}
     path = os.path.join(HERE, "replays", "%s-%d.json" % (check, spec["seed"]))
